@@ -929,7 +929,7 @@ def check_c19(tier, seed, log=print):
     R = random.Random(seed)
     cases = F.fam_c19(R, 120 if tier == 'quick' else 1500)
     iso = [i for i, c in enumerate(cases) if 'resource exhaustion' in c['meta'].get('note', '')]
-    caps = P.run_capture([c['src'] for c in cases], isolated=iso)
+    caps = P.run_capture([c['src'] for c in cases], code=True, isolated=iso)
     # library entry point
     n = 0
     nontriv = set()
@@ -960,6 +960,14 @@ def check_c19(tier, seed, log=print):
             msg = 'a valid definition was rejected: %s' % cap.errs[:1]
         elif m['expect'] == 'noreject-greedy' and 'greedy' in cap.err_classes():
             msg = 'allow_greedy = true did not suppress the greedy-dot diagnostic'
+        elif v == 'ACCEPT' and cap.codevalid is False:
+            msg = 'the derive reports nothing and returns an implementation that is not Rust (syn cannot parse it as a file)'
+        elif 'pair' in m and m['pair'] < len(caps) and caps[m['pair']] is not None and m['note'].endswith('tight form'):
+            other = caps[m['pair']]
+            if other.verdict != v:
+                msg = 'written without blanks the definition is %s, with blanks it is %s (%s)' % (v, other.verdict, (cap.errs or other.errs)[:1])
+            elif v == 'ACCEPT' and other.code != cap.code:
+                msg = 'written without blanks the definition gets a different implementation than with blanks'
         if msg:
             run.violation('derive', dict(definition=c['src'], entry='logos_codegen::generate under catch_unwind', verdict=v, what=msg, note=m.get('note')),
                           key='%s|%s' % ('crash' if v == 'CRASH' else 'derive', c['src']))
@@ -1000,6 +1008,9 @@ def check_c19(tier, seed, log=print):
             ui_panics += 1
             run.violation('proc-macro-panic', dict(definition=cases[i]['src'], entry='rustc (stable) procedural macro', messages=msgs[:3],
                                                    what='proc-macro derive panicked'), key='uipanic|' + cases[i]['src'])
+        elif any('unparsable tokens' in m_ for m_ in msgs):
+            run.violation('derive', dict(definition=cases[i]['src'], entry='rustc (stable) procedural macro', messages=msgs[:3],
+                                         what='the derive returned tokens rustc cannot parse, instead of a diagnostic'), key='uiunparsable|' + cases[i]['src'])
         elif cases[i]['meta']['expect'] == 'accept' and msgs:
             run.violation('does-not-compile', dict(definition=cases[i]['src'], messages=msgs[:3], what='an accepted definition does not compile'),
                           key='uicompile|' + cases[i]['src'])
@@ -1120,6 +1131,22 @@ def check_c16(tier, seed, log=print):
             cli_n += 1
             if outs[0] != outs[1] or (outs[0] is not None and chk.returncode != 0):
                 run.violation('cli-nondeterministic', dict(definition=s_, what='two logos-cli runs differ, or --check fails right after a write'), key='clinondet|' + s_)
+        # the tool on definitions the derive refuses with several diagnostics, in separate processes: whatever it prints
+        # and however it exits (standard output, standard error, exit status) is output too
+        refused = [s_ for s_ in srcs if any(m in s_ for m in ('subpattern a = "("', '#[regex("(")] A,', 'extras = u8, extras = u16', 'skip "(", skip', '(?&hex)+', '(?&aa)|(?&bb)', '(?&digi)', 'skipp " "'))]
+        for i, s_ in enumerate(refused):
+            inp = os.path.join(wdir, 'rin%d.rs' % i)
+            open(inp, 'w').write(s_)
+            seen = []
+            for k in range(4):
+                p_ = subprocess.run([cli, inp], capture_output=True, text=True)
+                seen.append((p_.returncode, p_.stdout, p_.stderr))
+                cli_n += 1
+            if len(set(seen)) > 1:
+                a_, b_ = seen[0], next(x for x in seen if x != seen[0])
+                run.violation('cli-nondeterministic', dict(definition=s_, first_run=dict(exit=a_[0], stdout=a_[1][:400], stderr=a_[2][:600]), other_run=dict(exit=b_[0], stdout=b_[1][:400], stderr=b_[2][:600]),
+                                                           what='two logos-cli runs on the same (refused) definition differ in exit status, standard output or standard error'), key='clinondet2|' + s_)
+        run.coverage['cli_refused_definitions_run_4_times'] = len(refused)
     # drift guard (informational): hash-container iteration sites in logos-codegen
     sites = scan_hash_sites()
     run.coverage.update(dict(evaluations=n + cli_n, distinct_nontrivial=len(nontriv),
